@@ -506,8 +506,8 @@ Proof.
   { apply N.eqb_eq in Ez. split; [discriminate|]. intros [[_ Hl] _]. lia. }
   apply N.eqb_neq in Ez.
   destruct (forallb _ _) eqn:Ef.
-  - apply forallb_auth in Ef. split; [|reflexivity]. intros _. repeat split; [exact Ev|lia|exact Ef].
-  - split; [discriminate|]. intros [_ Hp]. apply forallb_auth in Hp. congruence.
+  - pose proof (proj1 (forallb_auth auth (s5_methods m)) Ef) as Ef'. split; [|reflexivity]. intros _. repeat split; [exact Ev|lia|exact Ef'].
+  - split; [discriminate|]. intros [_ Hp]. pose proof (proj2 (forallb_auth auth (s5_methods m)) Hp) as Hp'. congruence.
 Qed.
 
 Lemma socks5_match_iff_ref auth m t :
@@ -518,8 +518,8 @@ Proof. unfold socks5_match. rewrite socks5_run_eq. apply socks5_fixed_iff_ref. Q
 Lemma socks5_v0_accepts_zero_methods :
   exists m, socks5_typed m /\ ~ socks5_wf m /\ fst (socks5_run_gen false [0; 1; 2]%N (socks5_encode m)) = Yes.
 Proof.
-  exists {| s5_ver := x05; s5_methods := [] |}. split; [cbn; lia|]. split; [|vm_compute; reflexivity].
-  intros [_ H]. cbn in H. lia.
+  exists {| s5_ver := x05; s5_methods := [] |}. split; [unfold socks5_typed; cbn [s5_methods length]; lia|]. split; [|vm_compute; reflexivity].
+  intros [_ H]. cbn [s5_methods length] in H. lia.
 Qed.
 
 (* ---- regexp ---- *)
@@ -647,4 +647,223 @@ Proof.
       inversion Ha; subst. congruence.
     + split; [discriminate|]. intros (a & ms' & b & Heq & Ha & Hy). destruct a as [|x a]; inversion Heq; subst; [congruence|].
       inversion Ha; subst. congruence.
+Qed.
+
+(* ---- postgres ---- *)
+Lemma pg_read_string_field k rest : no_nul k -> pg_read_string (Some (k ++ x00 :: rest)) = Some (k, Some rest).
+Proof.
+  intro Hk. unfold pg_read_string. rewrite index_byte_first by exact Hk.
+  rewrite firstn_app, Nat.sub_diag, firstn_all. cbn [firstn]. rewrite app_nil_r.
+  replace (skipn (S (length k)) (k ++ x00 :: rest)) with rest; [reflexivity|].
+  rewrite skipn_app. rewrite skipn_all2 by lia. replace (S (length k) - length k)%nat with 1%nat by lia. reflexivity.
+Qed.
+
+Lemma pg_params_encoded ps : forall fuel n,
+  Forall (fun kv : list byte * list byte => fst kv <> [] /\ no_nul (fst kv) /\ no_nul (snd kv)) ps ->
+  (length (pg_enc_params ps) < fuel)%nat ->
+  pg_params fuel (Some (pg_enc_params ps ++ [x00])) n = PgCount (n + N.of_nat (length ps)).
+Proof.
+  induction ps as [|[k v] r IH]; intros fuel n Hf Hl.
+  - destruct fuel as [|f]; [cbn in Hl; lia|]. cbn [pg_enc_params app length]. rewrite N.add_0_r.
+    cbn [pg_params]. change [x00] with ([] ++ x00 :: []) at 1. rewrite pg_read_string_field by (intros []). reflexivity.
+  - inversion Hf as [|? ? (Hk & Hnk & Hnv) Hr]; subst. cbn [fst snd] in *.
+    destruct fuel as [|f]; [lia|].
+    cbn [pg_enc_params] in *. rewrite !app_length in Hl. cbn [length] in Hl.
+    replace ((k ++ [x00] ++ v ++ [x00] ++ pg_enc_params r) ++ [x00])
+      with (k ++ x00 :: (v ++ x00 :: (pg_enc_params r ++ [x00]))) by (rewrite <- !app_assoc; reflexivity).
+    cbn [pg_params]. rewrite pg_read_string_field by exact Hnk.
+    destruct k as [|x k]; [congruence|]. rewrite pg_read_string_field by exact Hnv.
+    rewrite IH; [|exact Hr|unfold byte in *; lia]. cbn [length]. f_equal. lia.
+Qed.
+
+Lemma sub32_small a b : (b <= a)%N -> (a < two32)%N -> sub32 a b = (a - b)%N.
+Proof.
+  intros H1 H2. unfold sub32. replace (a + two32 - b)%N with ((a - b) + 1 * two32)%N by lia.
+  rewrite N.mod_add by (unfold two32; lia). apply N.mod_small. lia.
+Qed.
+
+Definition pg_after_frame (body : list byte) : verdict :=
+  match slice body 0 4 with
+  | None => Panic
+  | Some c4 =>
+      let code := be_N c4 in
+      if (code =? pg_sslcode)%N then Yes else
+      if (code / 65536 <? 3)%N then Fail else
+      match pg_params (S (length body)) (Some (skipn 4 body)) 0 with
+      | PgFuel => Panic
+      | PgPast => No
+      | PgCount c => if (0 <? c)%N then Yes else No
+      end
+  end.
+
+Lemma pg_frame_run body t :
+  (4 <= length body)%nat -> (N.of_nat (length body) <= maxMatching)%N ->
+  fst (pg_run_gen true true true (N_to_be 4 (N.of_nat (4 + length body)) ++ body ++ t)) = pg_after_frame body.
+Proof.
+  intros H4 Hmax. rewrite consts_max in Hmax. unfold pg_run_gen, pg_after_frame. destruct consts_pg as [-> _].
+  change (N.to_nat 4) with 4%nat. rewrite (read_full_exact 4) by apply N_to_be_length.
+  rewrite be_N_to_be by (change (256 ^ N.of_nat 4)%N with 4294967296%N; lia).
+  rewrite sub32_small by (unfold two32; lia).
+  replace (N.of_nat (4 + length body) - 4)%N with (N.of_nat (length body)) by lia.
+  cbn [andb].
+  replace (N.of_nat (4 + length body) <? 4)%N with false by (symmetry; apply N.ltb_ge; lia).
+  replace (maxMatching <? N.of_nat (length body))%N with false by (symmetry; apply N.ltb_ge; rewrite consts_max; lia).
+  cbn [orb]. rewrite read_fullN_exact by reflexivity.
+  replace (length body <? 4)%nat with false by (symmetry; apply Nat.ltb_ge; lia).
+  destruct (slice body 0 4) as [c4|]; [|reflexivity]. cbn zeta.
+  destruct (_ =? _)%N; [reflexivity|]. destruct (_ <? _)%N; [reflexivity|].
+  destruct (pg_params _ _ _); reflexivity.
+Qed.
+
+Lemma pg_fixed_iff_ref m t : pg_typed m -> (fst (pg_run_gen true true true (pg_encode m ++ t)) = Yes <-> pg_wf m).
+Proof.
+  intro Ht. unfold pg_encode. rewrite <- app_assoc. destruct m as [|maj min ps].
+  - rewrite pg_frame_run; [|cbn; lia|vm_compute; discriminate]. split; [intros _; exact I|intros _; vm_compute; reflexivity].
+  - destruct Ht as ((Hmaj & Hmin) & Hmax & Hps & Hne).
+    assert (Hb : pg_body (PgStartup maj min ps) = (N_to_be 2 maj ++ N_to_be 2 min) ++ (pg_enc_params ps ++ [x00]))
+      by (cbn [pg_body]; rewrite <- !app_assoc; reflexivity).
+    assert (Hl4 : length (N_to_be 2 maj ++ N_to_be 2 min) = 4%nat) by (rewrite app_length, !N_to_be_length; reflexivity).
+    rewrite pg_frame_run; [|rewrite Hb, app_length, Hl4; lia|exact Hmax].
+    unfold pg_after_frame. rewrite Hb.
+    pose proof (slice_mid [] (N_to_be 2 maj ++ N_to_be 2 min) (pg_enc_params ps ++ [x00])) as Hs.
+    cbn [app length] in Hs. rewrite Hl4 in Hs. cbn [Nat.add] in Hs. rewrite Hs. cbv zeta.
+    rewrite be_N_app, !be_N_to_be, N_to_be_length by (change (256 ^ N.of_nat 2)%N with 65536%N; lia).
+    change (256 ^ N.of_nat 2)%N with 65536%N. destruct consts_pg as [_ ->].
+    replace (maj * 65536 + min =? 80877103)%N with false by (symmetry; apply N.eqb_neq; exact Hne).
+    replace ((maj * 65536 + min) / 65536)%N with maj
+      by (apply N.div_unique with (r := min); lia).
+    cbn [pg_wf]. destruct (N.ltb_spec maj 3) as [Hlt|Hge].
+    { split; [discriminate|]. intros [H _]. lia. }
+    replace (skipn 4 ((N_to_be 2 maj ++ N_to_be 2 min) ++ pg_enc_params ps ++ [x00])) with (pg_enc_params ps ++ [x00])
+      by (rewrite skipn_app, Hl4; rewrite skipn_all2 by lia; reflexivity).
+    rewrite pg_params_encoded; [|exact Hps|rewrite !app_length; lia].
+    destruct ps as [|p ps]; cbn [length].
+    + split; [discriminate|]. intros [_ H]. congruence.
+    + split; [|intros _; replace (0 <? 0 + N.of_nat (S (length ps)))%N with true by (symmetry; apply N.ltb_lt; lia); reflexivity].
+      intros _. split; [exact Hge|discriminate].
+Qed.
+
+Lemma pg_match_iff_ref m t : pg_typed m -> (pg_match (pg_encode m ++ t) = Yes <-> pg_wf m).
+Proof. unfold pg_match. rewrite pg_run_eq. apply pg_fixed_iff_ref. Qed.
+
+(* the sniff is deliberately lax in two places the wire definition is not: an SSLRequest code is
+   accepted with any length field, and the terminator after the last pair may be missing *)
+Lemma pg_accepts_sslcode_any_length : fst (pg_run_gen true true true (unhex "0000001004d2162f0000000000000000")) = Yes.
+Proof. vm_compute. reflexivity. Qed.
+Lemma pg_accepts_missing_final_terminator : fst (pg_run_gen true true true (unhex "0000000f0003000075736572006100")) = Yes.
+Proof. vm_compute. reflexivity. Qed.
+
+(* ---- http request-line gate ---- *)
+Lemma slice_mid_n (a m b : list byte) n : length m = n -> slice (a ++ m ++ b) (length a) (length a + n) = Some m.
+Proof. intros <-. apply slice_mid. Qed.
+Lemma http_match_iff_ref m : http_typed m -> (http_gate (http_encode m) = Yes <-> http_wf m).
+Proof.
+  intros (Hm & Ht & Hw & Hwl & Hmaj & Hmin & Hcr). unfold http_encode, http_wf, x0a_free in *.
+  change (unhex "20") with [x20]. change (unhex "2e") with [x2e]. change (unhex "0d0a") with [x0d; x0a]. change (unhex "0a") with [x0a].
+  set (A := hr_method m ++ [x20] ++ hr_target m).
+  set (W := x20 :: hr_word m).
+  set (V := [hr_maj m; x2e; hr_min m]).
+  assert (HA : ~ In x0a A).
+  { unfold A. rewrite !in_app_iff. cbn [In]. intros [H|[[H|[]]|H]]; [tauto|discriminate|tauto]. }
+  assert (HW : ~ In x0a W) by (unfold W; cbn [In]; intros [H|H]; [discriminate|tauto]).
+  assert (HV : ~ In x0a V) by (unfold V; cbn [In]; intros [H|[H|[H|[]]]]; [congruence|discriminate|congruence]).
+  assert (HlW : length W = 6%nat) by (exact (f_equal S Hwl)).
+  assert (HlA : (1 <= length A)%nat) by (unfold A; rewrite !app_length; cbn [length]; lia).
+  assert (Hgoal : forall data i c, data = A ++ W ++ (V ++ (if Byte.eqb c x0d then [x0d] else []) ++ x0a :: hr_rest m) ->
+            index_byte data x0a = Some i -> i = (length A + 9 + (if Byte.eqb c x0d then 1 else 0))%nat -> index data (i - 1) = Some c ->
+            (http_gate data = Yes <-> hr_word m = unhex "485454502f")).
+  { intros data i c Hd Hi Hiv Hc. unfold http_gate. rewrite Hi.
+    destruct (Nat.ltb_spec i 10) as [Hlt|_]; [destruct (Byte.eqb c x0d); lia|]. rewrite Hc.
+    assert (Hs : slice data (fst (if Byte.eqb c x0d then (i - 9 - 1, i - 3 - 1)%nat else (i - 9, i - 3)%nat))
+                            (snd (if Byte.eqb c x0d then (i - 9 - 1, i - 3 - 1)%nat else (i - 9, i - 3)%nat)) = Some W).
+    { pose proof (slice_mid_n A W (V ++ (if Byte.eqb c x0d then [x0d] else []) ++ x0a :: hr_rest m) 6 HlW) as Hsm.
+      subst data. destruct (Byte.eqb c x0d); cbn [fst snd];
+        [replace (i - 9 - 1)%nat with (length A) by lia; replace (i - 3 - 1)%nat with (length A + 6)%nat by lia
+        |replace (i - 9)%nat with (length A) by lia; replace (i - 3)%nat with (length A + 6)%nat by lia]; exact Hsm. }
+    rewrite Hs. unfold W, http_word. change (unhex "20485454502f") with (x20 :: unhex "485454502f").
+    cbn [bytes_eqb]. rewrite byte_eqb_refl. cbn [andb].
+    destruct (bytes_eqb (hr_word m) (unhex "485454502f")) eqn:E.
+    - apply bytes_eqb_eq in E. split; [intros _; exact E|reflexivity].
+    - split; [discriminate|]. intro H. apply bytes_eqb_eq in H. congruence. }
+  destruct (hr_crlf m) eqn:Ecr.
+  - apply (Hgoal _ (length A + 6 + 3 + 1)%nat x0d).
+    + rewrite byte_eqb_refl. unfold A, W, V. rewrite <- !app_assoc. reflexivity.
+    + replace (hr_method m ++ [x20] ++ hr_target m ++ [x20] ++ hr_word m ++ [hr_maj m] ++ [x2e] ++ [hr_min m] ++ [x0d; x0a] ++ hr_rest m)
+        with ((A ++ W ++ V ++ [x0d]) ++ x0a :: hr_rest m) by (unfold A, W, V; rewrite <- !app_assoc; reflexivity).
+      rewrite index_byte_first.
+      * rewrite !app_length, HlW. unfold V. cbn [length]. f_equal. lia.
+      * rewrite !in_app_iff. cbn [In]. intros [H|[H|[H|[H|[]]]]]; [tauto|tauto|tauto|discriminate].
+    + rewrite byte_eqb_refl. lia.
+    + replace (hr_method m ++ [x20] ++ hr_target m ++ [x20] ++ hr_word m ++ [hr_maj m] ++ [x2e] ++ [hr_min m] ++ [x0d; x0a] ++ hr_rest m)
+        with ((A ++ W ++ V) ++ x0d :: (x0a :: hr_rest m)) by (unfold A, W, V; rewrite <- !app_assoc; reflexivity).
+      replace (length A + 6 + 3 + 1 - 1)%nat with (length (A ++ W ++ V)) by (rewrite !app_length, HlW; unfold V; cbn [length]; lia).
+      apply nth_error_mid.
+  - specialize (Hcr eq_refl).
+    assert (Hne : Byte.eqb (hr_min m) x0d = false).
+    { destruct (Byte.eqb (hr_min m) x0d) eqn:E; [|reflexivity]. apply byte_eqb_eq in E. congruence. }
+    apply (Hgoal _ (length A + 6 + 3)%nat (hr_min m)).
+    + rewrite Hne. unfold A, W, V. rewrite <- !app_assoc. reflexivity.
+    + replace (hr_method m ++ [x20] ++ hr_target m ++ [x20] ++ hr_word m ++ [hr_maj m] ++ [x2e] ++ [hr_min m] ++ [x0a] ++ hr_rest m)
+        with ((A ++ W ++ V) ++ x0a :: hr_rest m) by (unfold A, W, V; rewrite <- !app_assoc; reflexivity).
+      rewrite index_byte_first.
+      * rewrite !app_length, HlW. unfold V. cbn [length]. f_equal. lia.
+      * rewrite !in_app_iff. tauto.
+    + rewrite Hne. lia.
+    + replace (hr_method m ++ [x20] ++ hr_target m ++ [x20] ++ hr_word m ++ [hr_maj m] ++ [x2e] ++ [hr_min m] ++ [x0a] ++ hr_rest m)
+        with ((A ++ W ++ [hr_maj m; x2e]) ++ hr_min m :: (x0a :: hr_rest m)) by (unfold A, W; rewrite <- !app_assoc; reflexivity).
+      replace (length A + 6 + 3 - 1)%nat with (length (A ++ W ++ [hr_maj m; x2e])) by (rewrite !app_length, HlW; unfold V; cbn [length]; lia).
+      apply nth_error_mid.
+Qed.
+
+Lemma re_provision_spec : re_provision 0 = 4%N /\ forall c, (0 < c)%N -> re_provision c = c.
+Proof.
+  split; [reflexivity|]. intros c Hc. unfold re_provision. destruct (c =? 0)%N eqn:E; [|reflexivity].
+  apply N.eqb_eq in E. subst. discriminate.
+Qed.
+
+(* ---- the boolean references used by the engine are the references ---- *)
+Lemma socks5_ref_b_iff auth m : socks5_ref_b auth m = true <-> socks5_wf m /\ socks5_passes auth m.
+Proof.
+  unfold socks5_ref_b, socks5_wf, socks5_passes. rewrite !andb_true_iff, N.eqb_eq, Nat.leb_le, forallb_auth. tauto.
+Qed.
+
+Lemma pg_ref_b_iff m : pg_ref_b m = true <-> pg_wf m.
+Proof.
+  destruct m as [|maj min ps]; cbn [pg_ref_b pg_wf]; [tauto|].
+  rewrite andb_true_iff, N.leb_le. destruct ps; cbn [nonempty]; split; intros [H1 H2]; split; try assumption; try discriminate; try reflexivity.
+  congruence.
+Qed.
+
+Lemma socks4_ref_b_iff cfg m :
+  socks4_typed m -> Forall cidr_typed (s4_cidrs cfg) ->
+  (socks4_ref_b cfg m = true <-> socks4_wf m /\ socks4_passes cfg m).
+Proof.
+  intros [_ Hip] Hc. change two32 with (2 ^ 32)%N in Hip.
+  unfold socks4_ref_b, socks4_wf, socks4_passes. rewrite !andb_true_iff, !orb_true_iff, N.eqb_eq, !existsb_N_In, !negb_true_iff, !nonempty_false.
+  assert (Hcid : existsb (fun c => negb (c_is6 c) && (c_bits c <=? 32)%N &&
+                      (N.shiftr (s4_ip m) (32 - c_bits c) =? N.shiftr (c_addr c) (32 - c_bits c))%N) (s4_cidrs cfg) = true
+                 <-> exists c, In c (s4_cidrs cfg) /\ cidr_contains4 c (s4_ip m)).
+  { rewrite existsb_exists. split; intros (c & Hin & H); exists c; (split; [exact Hin|]).
+    - apply andb_true_iff in H. destruct H as [H H3]. apply andb_true_iff in H. destruct H as [H1 H2].
+      apply negb_true_iff in H1. apply N.leb_le in H2. apply N.eqb_eq in H3.
+      assert (Hct : (c_addr c < 2 ^ 32)%N).
+      { rewrite Forall_forall in Hc. specialize (Hc c Hin). unfold cidr_typed in Hc. rewrite H1 in Hc. exact Hc. }
+      repeat split; [exact H1|exact H2|]. apply shiftr_eq_iff in H3; assumption.
+    - destruct H as (H1 & H2 & H3).
+      assert (Hct : (c_addr c < 2 ^ 32)%N).
+      { rewrite Forall_forall in Hc. specialize (Hc c Hin). unfold cidr_typed in Hc. rewrite H1 in Hc. exact Hc. }
+      rewrite H1. cbn [negb andb]. apply andb_true_iff. split; [apply N.leb_le; exact H2|].
+      apply N.eqb_eq. apply shiftr_eq_iff; assumption. }
+  rewrite Hcid. tauto.
+Qed.
+
+(* an RFC 6120 header is recognised when its default-namespace attribute begins within the first
+   36 bytes (so that the word ends by byte 50) *)
+Lemma xmpp_header_early_namespace h :
+  (length (xh_pre h) + 14 <= 50)%nat -> (50 <= length (xmpp_encode h))%nat -> xmpp_match (xmpp_encode h) = Yes.
+Proof.
+  intros Hpre Hlen. apply xmpp_iff_occurs. split; [exact Hlen|].
+  exists (length (xh_pre h) + 8)%nat. split; [lia|].
+  exists (xh_pre h ++ unhex "20786d6c6e733d27"), ((if xh_server h then unhex "3a73657276657227" else unhex "3a636c69656e7427") ++ xh_post h).
+  split; [unfold xmpp_encode; rewrite <- !app_assoc; reflexivity|rewrite app_length; reflexivity].
 Qed.
